@@ -186,8 +186,8 @@ auto ebpps_sketch<T,A>::get_result() const -> result_type {
 
 template<typename T, typename A>
 void ebpps_sketch<T, A>::merge(ebpps_sketch<T, A>&& sk) {
-  if (sk.get_cumulative_weight() == 0.0) return;
-  else if (sk.get_cumulative_weight() > get_cumulative_weight()) {
+  // an empty sk has no items to insert but may still carry a smaller k
+  if (sk.get_cumulative_weight() > get_cumulative_weight()) {
     // need to swap this with sk to merge smaller into larger
     std::swap(*this, sk);
   }
@@ -197,8 +197,8 @@ void ebpps_sketch<T, A>::merge(ebpps_sketch<T, A>&& sk) {
 
 template<typename T, typename A>
 void ebpps_sketch<T, A>::merge(const ebpps_sketch<T, A>& sk) {
-  if (sk.get_cumulative_weight() == 0.0) return;
-  else if (sk.get_cumulative_weight() > get_cumulative_weight()) {
+  // an empty sk has no items to insert but may still carry a smaller k
+  if (sk.get_cumulative_weight() > get_cumulative_weight()) {
     // need to swap this with sk to merge, so make a copy, swap,
     // and use that to merge
     ebpps_sketch sk_copy(sk);
@@ -222,6 +222,17 @@ void ebpps_sketch<T, A>::internal_merge(O&& sk) {
   k_ = std::min(k_, sk.k_);
   const uint64_t new_n = n_ + sk.n_;
 
+  // A smaller k_ or a larger maximum weight lowers the admissible rho.
+  // Rescale the current sample first so that it respects the new bound
+  // even if sk has no items to insert (e.g. sk is empty but has a smaller k).
+  if (cumulative_wt_ > 0.0) {
+    const double new_rho = std::min(1.0 / new_wt_max, k_ / cumulative_wt_);
+    if (new_rho < rho_) {
+      sample_.downsample(new_rho / rho_);
+      rho_ = new_rho;
+    }
+  }
+
   // Insert sk's items with the cumulative weight
   // split between the input items. We repeat the same process
   // for full items and the partial item, scaling the input
@@ -231,7 +242,7 @@ void ebpps_sketch<T, A>::internal_merge(O&& sk) {
   // Handling the partial item by probabilistically including
   // it as a full item would be correct on average but would
   // introduce bias for any specific merge operation.
-  const double avg_wt = sk.get_cumulative_weight() / sk.get_c();
+  const double avg_wt = sk.is_empty() ? 0.0 : sk.get_cumulative_weight() / sk.get_c();
   auto items = other_sample.get_full_items();
   for (size_t i = 0; i < items.size(); ++i) {
     // new_wt_max is pre-computed
